@@ -794,6 +794,12 @@ func c12ProgScenario(rt c12Route) Scenario {
 // VM.SpawnSync. hostPanic is the message of a Go panic raised on the calling (host)
 // goroutine by SpawnSync itself (argument / return validation refuse by panicking).
 func runInvoke(a Analyzed, inv runtime.FunctionInvocation) (o Obs, ret value.Value, hostPanic string) {
+	return runInvokeVia(a, inv, false)
+}
+
+// runInvokeVia: async selects VM.SpawnAsync + VM.Wait instead of VM.SpawnSync (both entry points
+// validate and convert the host's arguments; an asynchronous call has no return value).
+func runInvokeVia(a Analyzed, inv runtime.FunctionInvocation, async bool) (o Obs, ret value.Value, hostPanic string) {
 	prog, pmsg, site := Compile(a)
 	if pmsg != "" {
 		o.Class, o.Msg, o.PanicSite = "HOST-PANIC", pmsg, site
@@ -812,6 +818,12 @@ func runInvoke(a Analyzed, inv runtime.FunctionInvocation) (o Obs, ret value.Val
 				o.PanicSite = vsched.RepoFrames(string(debug.Stack()))
 			}
 		}()
+		if async {
+			vm.SpawnAsync(inv, nil, nil, nil)
+			_, i := vm.Wait()
+			classifyVM(&o, i, ctx)
+			return
+		}
 		res := vm.SpawnSync(inv, nil, nil)
 		if res.Exception != nil {
 			i := res.Exception.Interrupt
@@ -842,10 +854,17 @@ func isRefusal(p string) bool {
 	return strings.Contains(p, "type mismatch") || strings.Contains(p, "return type assertion failed")
 }
 
-func c12SpawnArg(tier string, idx int, r *Result) {
+func c12SpawnArg(tier string, idx int, r *Result)      { c12SpawnArgVia(tier, idx, false, r) }
+func c12SpawnArgAsync(tier string, idx int, r *Result) { c12SpawnArgVia(tier, idx, true, r) }
+
+func c12SpawnArgVia(tier string, idx int, async bool, r *Result) {
 	v, t := c12Universe(tier).pair(idx)
 	text := fmt.Sprintf("fn f(x: %s) {\n    print(\"ok \");\n    %s\n    println(\"|after\", 1 + 2);\n}\nfn main() {}\n", t, probe(t, "x", 1))
-	cas := fmt.Sprintf("// host: vm.SpawnSync(f, args=[%s], signature (x: %s) -> null)\n%s", v, t, text)
+	entry, route := "SpawnSync", "spawn-arg"
+	if async {
+		entry, route = "SpawnAsync", "spawn-arg-async"
+	}
+	cas := fmt.Sprintf("// host: vm.%s(f, args=[%s], signature (x: %s) -> null)\n%s", entry, v, t, text)
 	r.Sample(cas)
 	a := Analyze(map[string]string{"main": text}, true)
 	if a.Obs.Class == "HOST-PANIC" || !a.Obs.Accepted() {
@@ -853,12 +872,12 @@ func c12SpawnArg(tier string, idx int, r *Result) {
 		return
 	}
 	ex := c12Expectation(v, t, false)
-	tags := []string{"route:spawn-arg", "backend:vm"}
+	tags := []string{"route:" + route, "backend:vm"}
 	inv := runtime.FunctionInvocation{Function: "f", Args: []value.Value{*toRV(v)}, FunctionSignature: runtime.FunctionInvocationSignature{
 		Params:     []runtime.FunctionInvocationSignatureParam{{Ident: "x", Type: t.astType()}},
 		ReturnType: ast.NewNullType(noSpan),
 	}}
-	o, _, hp := runInvoke(a, inv)
+	o, _, hp := runInvokeVia(a, inv, async)
 	r.Obs(o)
 	r.Trans(3)
 	outcome := c12HostOutcome(ex, t, v, o, hp, tags, cas, r, func() [][2]string {
@@ -875,7 +894,7 @@ func c12SpawnArg(tier string, idx int, r *Result) {
 		return nil
 	})
 	r.Outcome(ex.Must + "/" + outcome)
-	r.Distinct("spawn-arg|" + firstMismatch(v, t) + "|" + ex.Must + "|" + outcome + "|" + o.Out)
+	r.Distinct(route + "|" + firstMismatch(v, t) + "|" + ex.Must + "|" + outcome + "|" + o.Out)
 }
 
 // c12HostOutcome is the shared part of the two host-boundary routes.
@@ -986,6 +1005,7 @@ func init() {
 		}
 		c.Scenarios = append(c.Scenarios,
 			Scenario{Name: "spawn-arg", Count: cnt, Run: c12SpawnArg},
+			Scenario{Name: "spawn-arg-async", Count: cnt, Run: c12SpawnArgAsync},
 			Scenario{Name: "spawn-ret", Count: cnt, Run: c12SpawnRet})
 		return c
 	})
